@@ -29,6 +29,9 @@ type c20Scenario struct {
 	// Discard: the file with the unsaved edit was opened with its disk text,
 	// changed, looked at once and closed again without saving before the sweep
 	Discard bool `json:"edit_discarded,omitempty"`
+	// ByEdit: the workspace starts from a root journal without its include
+	// lines; they arrive with an edit of the open root journal
+	ByEdit bool `json:"includes_added_by_edit,omitempty"`
 }
 
 // value alphabet: spelling, exact value, negative
@@ -205,6 +208,9 @@ func (sc c20Scenario) features(from int) string {
 	if len(sc.Extra) > 0 {
 		f += ", a file included along two paths"
 	}
+	if sc.ByEdit {
+		f += ", the root's include lines arrived with an edit"
+	}
 	return f
 }
 
@@ -253,6 +259,13 @@ func c20Run(c *core.Ctx, dir string, sc c20Scenario, only *c20Case) {
 		if only != nil && only.From != from {
 			continue
 		}
+		byEdit := sc.ByEdit && sc.Root && sc.EditFile != 0
+		mainPath := filepath.Join(dir, c09Files[0])
+		mainText := cur[0].Render().Text
+		stripped := strings.ReplaceAll(mainText, "include ", "; nclude ")
+		if byEdit {
+			_ = os.WriteFile(mainPath, []byte(stripped), 0o644)
+		}
 		s := wire.New()
 		root := ""
 		if sc.Root {
@@ -260,6 +273,13 @@ func c20Run(c *core.Ctx, dir string, sc c20Scenario, only *c20Case) {
 		}
 		s.Initialize(wire.InitOpts{Root: root})
 		s.Initialized()
+		mainOpened := false
+		if byEdit {
+			s.DidOpen(uriOf(0), stripped)
+			s.DidChangeFull(uriOf(0), mainText, 2)
+			_ = os.WriteFile(mainPath, []byte(disk[0].Render().Text), 0o644)
+			mainOpened = true
+		}
 		wasOpen := open[from]
 		open[from] = true
 		kept := false
@@ -282,7 +302,7 @@ func c20Run(c *core.Ctx, dir string, sc c20Scenario, only *c20Case) {
 			kept = true // the hovered document stays open: it is not analysed again
 		}
 		for f := 0; f < sc.N; f++ {
-			if open[f] && !(kept && f == from) {
+			if open[f] && !(kept && f == from) && !(mainOpened && f == 0) {
 				s.DidOpen(uriOf(f), cur[f].Render().Text)
 			}
 		}
@@ -526,6 +546,11 @@ func checkC20(c *core.Ctx) {
 							}
 							sc := c20Scenario{N: n, Parent: tree, Root: root, Values: vals, EditFile: ef, OpenAll: openAll}
 							c20Run(c, dir, sc, nil)
+							if root && n >= 2 && ef != 0 && rot < 2 {
+								bsc := sc
+								bsc.ByEdit = true
+								c20Run(c, dir, bsc, nil)
+							}
 							if ef >= 0 && n >= 2 && rot < 2 {
 								dsc := sc
 								dsc.Discard = true
